@@ -46,20 +46,22 @@ pub struct PropCfg {
     /// Also run all-cuts variants (C08).
     pub cuts: usize,
     pub variants: bool,
+    /// Also enumerate skippable text at the gaps of skip-free sentences (C07, C03, C04).
+    pub gaps: usize,
 }
 
 pub fn prop_cfg(prop: &str, thorough: bool) -> PropCfg {
     let k = if thorough { 6 } else { 1 };
     let all: &'static [&'static str] = &["core", "repo", "unicode", "kinds", "stack", "slice", "arity", "getter", "rec", "random"];
-    let base = PropCfg { families: all, groups: grp::STR, sentences: 24 * k, mutations: 48 * k, small_cap: 400 * k, padded: false, cuts: 0, variants: false };
+    let base = PropCfg { families: all, groups: grp::STR, sentences: 24 * k, mutations: 48 * k, small_cap: 400 * k, padded: false, cuts: 0, variants: false, gaps: 0 };
     match prop {
-        "C01" => PropCfg { groups: grp::STR, ..base },
+        "C01" => PropCfg { groups: grp::STR, gaps: 1, ..base },
         "C02" => PropCfg { groups: grp::STR | grp::TREE, ..base },
-        "C03" => PropCfg { groups: grp::STR | grp::FORMS | grp::WITH, padded: true, ..base },
-        "C04" => PropCfg { groups: grp::STR | grp::EXTRA_ENTRY | grp::TREE, ..base },
+        "C03" => PropCfg { groups: grp::STR | grp::FORMS | grp::WITH, padded: true, gaps: 1, ..base },
+        "C04" => PropCfg { groups: grp::STR | grp::EXTRA_ENTRY | grp::TREE, gaps: 1, ..base },
         "C05" => PropCfg { families: &["stack", "slice", "repo", "random"], groups: grp::STR | grp::WITH, sentences: 40 * k, mutations: 80 * k, ..base },
         "C06" => PropCfg { families: &["slice", "stack"], groups: grp::STR | grp::WITH, sentences: 30 * k, mutations: 40 * k, ..base },
-        "C07" => PropCfg { families: &["kinds"], groups: grp::STR | grp::TREE, sentences: 30 * k, mutations: 60 * k, small_cap: 800 * k, ..base },
+        "C07" => PropCfg { families: &["kinds"], groups: grp::STR | grp::TREE, sentences: 30 * k, mutations: 60 * k, small_cap: 800 * k, gaps: 4 * k, ..base },
         "C08" => PropCfg { groups: grp::STR | grp::TREE | grp::FORMS, padded: true, cuts: 6 * k, sentences: 16 * k, mutations: 24 * k, small_cap: 150 * k, ..base },
         "C09" => PropCfg { groups: grp::ALL, padded: true, sentences: 16 * k, mutations: 40 * k, small_cap: 200 * k, ..base },
         "C10" => PropCfg { groups: grp::STR | grp::WITH | grp::VALUE | grp::FORMS, padded: true, ..base },
@@ -99,6 +101,13 @@ fn cases_for(model: &Model, rule: &str, cfg: &PropCfg, rng: &mut Rng) -> Vec<Cas
     let mut inputs = refpeg::gen::inputs_for(&model.opt, rule, &model.alphabet, rng, cfg.sentences, cfg.mutations);
     let n_generated = inputs.len();
     let mut seen: std::collections::HashSet<String> = inputs.iter().cloned().collect();
+    if cfg.gaps > 0 && (model.opt.whitespace.is_some() || model.opt.comment.is_some()) {
+        for s in refpeg::gen::gap_inputs(&model.opt, rule, &model.alphabet, rng, cfg.gaps, 6) {
+            if s.len() <= 4096 && seen.insert(s.clone()) {
+                inputs.push(s);
+            }
+        }
+    }
     for s in model.small_scope.iter().take(cfg.small_cap).chain(model.hostile.iter()) {
         if seen.insert(s.clone()) {
             inputs.push(s.clone());
